@@ -166,4 +166,8 @@ def run(ck, ix, tier):
     ck.check(ok, "G-PROV", "convert|identity-between-equal-units", fi.loc(), "equal units return the value unchanged", "convert no longer returns the value unchanged for equal units")
     c = [x for x in walk_local(fi.node) if isinstance(x, ast.Call) and call_name(x) == "_convert"]
     ck.check(bool(c) and [norm(a) for a in c[0].args][:3] == ["value", "src", "dst"], "G-PROV", "convert|src-dst-order", fi.loc(), "delegates (value, src, dst)", "convert passes src/dst in the wrong order")
+    from .C10 import parser_entry_rule
+    parser_entry_rule(ck, ix)  # literals of definitions are read in the registry's numeric type on every entry path
+    from .C03 import scalar_coercion_rule
+    scalar_coercion_rule(ck, ix)  # int/float/complex apply the conversion to no units
     return EXPLANATION
